@@ -34,7 +34,8 @@ def chain(maxd, hops=1, **c):
 FAMILIES = {
     "Compose": fam("MC_Compose",
                    quick=[ex(2, NilOps="= TRUE"), ex(3, Ops="<- OpsW"), sim(1500, 6, design=False, NSlots="= 3")],
-                   thorough=[ex(2, NilOps="= TRUE"), chain(3, hops=0), ex(3, Ops="<- OpsW"), chain(4, hops=0, Ops="<- OpsW"),
+                   thorough=[ex(2, NilOps="= TRUE"), chain(3, hops=0, Shapes="<- ShapesOne"), ex(3, Ops="<- OpsW"),
+                             chain(4, hops=0, Ops="<- OpsW"),
                              sim(30000, 8, NSlots="= 3")]),
     "Source": fam("MC_Compose",
                   quick=[ex(4, NSlots="= 1", Ops="<- OpsSrc", Shapes="<- ShapesOne", Shapes2="<- Shapes2V")],
@@ -54,7 +55,7 @@ FAMILIES = {
                  quick=[chain(4, hops=2), sim(1500, 6, design=False, NSlots="= 2"),
                         sim(1500, 10, design=False, NSlots="= 1", Ops="<- OpsHints", Shapes2="<- ShapesH"),
                         chain(4, hops=2, Ops="<- OpsOS")],
-                 thorough=[chain(5, hops=2, Ops="<- OpsOS"), ex(3), chain(5, hops=2), sim(30000, 8, NSlots="= 2"),
+                 thorough=[chain(5, hops=2, Ops="<- OpsOS"), ex(2), chain(5, hops=2), sim(30000, 8, NSlots="= 2"),
                            sim(20000, 12, design=False, NSlots="= 1", Ops="<- OpsHints", Shapes2="<- ShapesH")]),
     "Hidden": fam("MC_Hidden",
                   quick=[ex(2), sim(1500, 6, design=False, NSlots="= 2", NilOps="= TRUE")],
